@@ -8,6 +8,11 @@ if ! "$PY" -c "import hypothesis" 2>/dev/null; then
     "$PY" -m pip install --no-index --find-links /opt/veriftools/wheels --target "$HERE/.deps" hypothesis
 fi
 "$PY" -c "import sys; sys.path.insert(0, '$HERE/.deps'); import hypothesis; print('hypothesis', hypothesis.__version__)" || exit 1
+# atheris (coverage-guided tier of C10) is optional: without it the campaigns are skipped and the evidence says so
+if ! PYTHONPATH="$HERE/.deps" "$PY" -c "import atheris" 2>/dev/null; then
+    "$PY" -m pip install --no-index --find-links /opt/veriftools/wheels --target "$HERE/.deps" atheris >/dev/null 2>&1 || \
+    echo "atheris not installed (the C10 fuzz campaigns will be skipped)"
+fi
 mkdir -p "$HERE/.build" "$HERE/evidence" "$HERE/replays"
 if [ -f "$HERE/vlib/cpu32/build.sh" ]; then sh "$HERE/vlib/cpu32/build.sh" || echo "cpu32 build failed (C04/C08 will be INCONCLUSIVE)"; fi
 exit 0
